@@ -181,7 +181,7 @@ def checker_line(cid, line, impl_main):
     res = impl_main.split()
     args = arg_mats(line)
     try:
-        if op in ('echelonize_m4ri', 'echelonize_m4ri_h', 'echelonize_pluq', 'echelonize', 'echelonize_naive', 'gauss_delayed'):
+        if op in ('echelonize_m4ri', 'echelonize_m4ri_exact', 'echelonize_m4ri_h', 'echelonize_pluq', 'echelonize', 'echelonize_naive', 'gauss_delayed'):
             if op == 'gauss_delayed' and args[1][1] != '0':
                 return None
             A0 = args[0]
